@@ -466,6 +466,13 @@ class Walker:
                             self.bad(hist, op, "wrong-value", f"set({k!r}, {show(v)}) then get returned {show(got)}; the "
                                      f"value denotes {show(want)}")
                     new_ref[k] = copy.deepcopy(want)
+                else:
+                    # refused by a validating setter: whatever the setting holds now is the reference from here on
+                    # (a setter that assigns before it raises leaves its own setting modified - not judged here)
+                    try:
+                        new_ref[k] = copy.deepcopy(scratch.get(k))
+                    except Exception:  # noqa: BLE001
+                        pass
                 for k2 in m.valid:
                     if k2 == k:
                         continue
@@ -576,9 +583,10 @@ def replay_seq(case):
         w.bad([], ["set", k, "int"], "location-not-found", f"no probe assignment to valid key {k!r} was accepted / visible")
     for i, op in enumerate(ops):
         r = w.explore_from(proc, ref, ops[:i], [op])
-        if w.viol or not r:
+        if w.viol:
             break
-        proc, ref, _ = r[0]
+        if r:                                   # state-changing operation: continue from the new state
+            proc, ref, _ = r[0]
     return [{"key": v["key"], "what": v["what"], "case": dict(case, ops=v["ops"])} for v in w.viol]
 
 
